@@ -525,7 +525,7 @@ def judge_C13(case, ml, il):
 PROPS.update({
     "C02": dict(gen=gen_C02, configs=["dev", "rel"], judge=judge_projection(["load"]), both_placements=True,
                 assumptions=["the memory made valid for load is max(8, declared total size) bytes (the caller's obligation under load's safety contract)"]),
-    "C03": dict(gen=gen_C03, configs=["dev", "rel"], judge=judge_projection(["load", "tag", "tags", "module", "modules", "new", "clone", "next"]),
+    "C03": dict(gen=gen_C03, configs=["dev", "rel"], judge=judge_projection(["load", "tag", "tags", "tags_nth", "tags_count", "module", "modules", "new", "clone", "next"]),
                 both_placements=True, assumptions=["an iterator is not used again after one of its calls panicked"]),
     "C10": dict(gen=gen_C10, configs=["dev", "rel"], judge=judge_projection(["load", "calc_checksum", "verify_checksum"]), both_placements=True,
                 assumptions=["the architecture word is 0 or 4 (a defined HeaderTagISA value), as the property presupposes"]),
